@@ -133,12 +133,69 @@ def rule_r4(prog, res) -> None:
         raise AnalysisError("C03.R4: cov_from_samples has no rowvar parameter any more")
     ncov = 0
     bad: dict = {}
+    kparam = next((q for q in cv.param_names() if q == "kind"), None)
+
+    def kind_oracle(kind_value):
+        """decides tests that compare the kind of covariance with a literal (`kind == "diag"`, `CovKind(kind) != "var"`)"""
+
+        def orc(t):
+            if isinstance(t, ast.Compare) and len(t.ops) == 1 and isinstance(t.ops[0], (ast.Eq, ast.NotEq)) and kparam:
+                sides = [t.left, t.comparators[0]]
+                lit = next((x for x in sides if isinstance(x, ast.Constant) and isinstance(x.value, str)), None) or next((x for x in sides if isinstance(x, ast.Attribute) and (dotted(x) or "").startswith("CovKind.")), None)
+                var = next((x for x in sides if x is not lit), None)
+                if lit is not None and var is not None and any(isinstance(y, ast.Name) and y.id == kparam for y in ast.walk(var)):
+                    lv = lit.value if isinstance(lit, ast.Constant) else lit.attr
+                    return (lv == kind_value) == isinstance(t.ops[0], ast.Eq)
+            return None
+
+        return orc
+
+    # (a) which kind of covariance is returned for which request: full = the covariance matrix itself, var = its main
+    # diagonal only, diag = main diagonal plus the diagonals that pair the same observable of different sample sets;
+    # a single sample gives NaN (no scatter to estimate), never zeros
+    if kparam:
+        for orient in (False, True):
+            for kv in ("full", "var", "diag"):
+                kpaths = [p for p in symx.Explorer(prog, inline=symx.inline_private_helpers(prog), oracle=kind_oracle(kv)).run(cv, {"rowvar": ast.Constant(orient)}) if p.outcome == "return" and p.value is not None]
+                main = [p for p in kpaths if any(isinstance(x, ast.Call) and (dotted(x.func) or "").split(".")[-1] == "cov" for x in ast.walk(p.value))]
+                for p in main:
+                    diags = [x for x in ast.walk(p.value) if isinstance(x, ast.Call) and (dotted(x.func) or "").split(".")[-1] == "diag"]
+                    ks = []
+                    for d_ in diags:
+                        kk = kwarg(d_, "k") or (d_.args[1] if len(d_.args) > 1 else ast.Constant(value=0))
+                        ks.append(unparse(kk))
+                    why = None
+                    if kv == "full" and diags:
+                        why = "the full covariance is reduced to diagonals"
+                    elif kv == "var" and (not diags or any(k_ != "0" for k_ in ks)):
+                        why = f"the variance-only covariance is not the main diagonal (diagonals taken: {sorted(set(ks))})"
+                    elif kv == "diag" and "0" not in ks:
+                        why = f"the main diagonal (k=0) is missing from the diagonals-only covariance (diagonals taken: {sorted(set(ks))[:4]})"
+                    if why:
+                        bad.setdefault("kind", (p, f"kind='{kv}': {why}"))
+                if not main:
+                    bad.setdefault("kind", (None, f"kind='{kv}': no path computes a covariance"))
+                if not any("nan" in unparse(p.value) for p in kpaths if not any(isinstance(x, ast.Call) and (dotted(x.func) or "").split(".")[-1] == "cov" for x in ast.walk(p.value))):
+                    bad.setdefault("single", (None, "no path returns NaN for a single sample"))
+        if "kind" in bad:
+            res.violation("C03.R4", cv, (bad["kind"][0].node if bad["kind"][0] is not None else None) or cv.node, f"cov_from_samples: {bad['kind'][1]} — the matrix handed out is not the kind of covariance that was asked for (correlations dropped or invented), silently", key_extra="cov-kind-dispatch")
+        else:
+            res.ok("C03.R4", res.site(cv, "kind"), "full / var / diag return the matrix, its main diagonal, the main plus the cross-sample diagonals")
+        if "single" in bad:
+            res.violation("C03.R4", cv, cv.node, "cov_from_samples no longer answers a single sample with NaN: (N-1)·cov = 0 is reported as a perfectly known result (zero errors)", key_extra="cov-single-sample")
     for orient in (False, True):
         paths = symx.Explorer(prog, inline=symx.inline_private_helpers(prog)).run(cv, {"rowvar": ast.Constant(orient)})
         for p in paths:
             if p.outcome != "return" or p.value is None:
                 continue
             pm = parents_map(p.value)
+            # (b) several sample sets are joined along the OBSERVABLE axis (the other one would add samples)
+            for cc in [x for x in ast.walk(p.value) if isinstance(x, ast.Call) and (dotted(x.func) or "").split(".")[-1] in ("concatenate", "hstack", "vstack", "column_stack")]:
+                ax = kwarg(cc, "axis")
+                fnm = (dotted(cc.func) or "").split(".")[-1]
+                axv = ax.value if isinstance(ax, ast.Constant) else {"hstack": 1, "column_stack": 1, "vstack": 0}.get(fnm, 0 if ax is None else None)
+                if axv is not None and axv != (0 if orient else 1):
+                    bad.setdefault("concat", (p, f"rowvar={orient}: sample sets are joined along axis {axv}, the samples axis"))
             for call in [x for x in ast.walk(p.value) if isinstance(x, ast.Call) and (dotted(x.func) or "").split(".")[-1] == "cov" and x.args]:
                 ncov += 1
                 ddof = kwarg(call, "ddof")
@@ -173,6 +230,8 @@ def rule_r4(prog, res) -> None:
                     cur, par = par, pm.get(id(par))
                 if not understood or not fac.equals(want):
                     bad.setdefault("factor", call)
+    if "concat" in bad:
+        res.violation("C03.R4", cv, bad["concat"][0].node or cv.node, f"cov_from_samples: {bad['concat'][1]} — the sets are stacked as if they were more samples of the same observables: the joint covariance has the wrong size / the wrong N", key_extra="cov-concat-axis")
     if ncov < 2:
         # the one-pass form  E[x xT] - E[x] E[x]T : the same number on paper, but jackknife samples scatter by far less
         # than their value, so the difference of the two large terms cancels (entries off by the size of the variance,
